@@ -312,8 +312,14 @@ impl<Tx: Debug + ProstMessage + Default, Rx: Debug + ProstMessage + Default> Cha
 
         let mut count = 0usize;
         loop {
-            let size = self.front_buf.available_space();
+            let mut size = self.front_buf.available_space();
             trace!("channel available space: {}", size);
+            if size == 0 {
+                // reclaim the bytes of already consumed messages first:
+                // `consume` only compacts once past half the capacity
+                self.front_buf.shift();
+                size = self.front_buf.available_space();
+            }
             if size == 0 {
                 // try to grow the buffer before giving up
                 if let Some(new_size) = self.grow_size(self.front_buf.capacity()) {
@@ -630,6 +636,10 @@ impl<Tx: Debug + ProstMessage + Default, Rx: Debug + ProstMessage + Default> Cha
             }
         }
 
+        if self.front_buf.available_space() == 0 {
+            // a partial frame may sit behind the bytes of consumed messages
+            self.front_buf.shift();
+        }
         if self.front_buf.available_space() == 0 {
             if self.front_buf.capacity() >= self.max_buffer_size {
                 return Err(ChannelError::BufferFull {
